@@ -108,6 +108,14 @@ func init() {
 			}
 		}
 		runGossip(run, "C03", jobs)
+		// the closure assumes the periodic task keeps initiating exchanges with
+		// live AND unreachable peers: check the real gossipRound for every
+		// combination of peer classes
+		cases, probs := gw.CheckGossipRound()
+		for _, p := range probs {
+			run.Violation("C03", "gossip-round-skips-peer-class", p, map[string]any{"engine": "E1-round", "problem": p})
+		}
+		run.Set("gossip_round_cases", cases)
 		run.Assume("fair orders enumerated by the closure: all ordered pairs per round, rotated and reversed between rounds, digest order rotated; not every fair schedule")
 		return run.Finish()
 	})
